@@ -1,11 +1,13 @@
 #!/usr/bin/env python3
 """Collect confirmed seeded breakages into /verif/seeded/<P>_<X>/ (patch.diff, demo, README from the author, meta.json) and
 write /verif/seeded/README.md (which check catches which change).
-usage: seedcollect.py <root=/tmp/seed> <evalfile> ; evalfile = output lines of tools/seedeval.py"""
+usage: seedcollect.py <root=/tmp/seed> <evalfile> [prefix] ; evalfile = output lines of tools/seedeval.py"""
 import os, sys, json, re, shutil, glob
 HERE = os.path.dirname(os.path.dirname(os.path.abspath(__file__)))
 root = sys.argv[1] if len(sys.argv) > 1 else "/tmp/seed"
 evalfile = sys.argv[2] if len(sys.argv) > 2 else "/tmp/seedeval.log"
+prefix = sys.argv[3] if len(sys.argv) > 3 else ""          # e.g. "r2_" for the second round
+readme_name = "README.md" if not prefix else "README_%s.md" % prefix.rstrip("_")
 ev = {}
 for l in open(evalfile):
     m = re.match(r"(\S+)\s+(C\d\d)/(\w+)\s+(own-property|other-only)?\s*(\{.*\}|\".*\")?", l)
@@ -48,13 +50,13 @@ for P in sorted(os.listdir(root)):
         if not summ or "CONFIRMED" not in summ:
             rows.append((P, X, "not kept", summ or "not confirmed yet", None))
             continue
-        dst = os.path.join(HERE, "seeded", "%s_%s" % (P, X))
+        dst = os.path.join(HERE, "seeded", "%s%s_%s" % (prefix, P, X))
         os.makedirs(dst, exist_ok=True)
         for f in os.listdir(v):
             if f in ("patch.diff", "demo.py", "demo.sh", "demo.diff", "run_demo.sh", "README.md"):
                 shutil.copy(os.path.join(v, f), os.path.join(dst, f))
         st, info = ev.get((P, X), ("NOT-EVALUATED", {}))
-        key = "%s_%s" % (P, X)
+        key = "%s%s_%s" % (prefix, P, X)
         title, needs = readme_bits(os.path.join(v, "README.md"))
         meta = {
             "property": P, "variant": X,
@@ -69,13 +71,13 @@ for P in sorted(os.listdir(root)):
         }
         json.dump(meta, open(os.path.join(dst, "meta.json"), "w"), indent=1)
         rows.append((P, X, st, summ, info))
-with open(os.path.join(HERE, "seeded", "README.md"), "w") as fh:
-    fh.write("# Independent seeded breakages\n\nWritten by fresh sub-agents that saw only the property text and a scratch worktree (nothing from /verif). "
+with open(os.path.join(HERE, "seeded", readme_name), "w") as fh:
+    fh.write("# Independent seeded breakages%s\n\nWritten by fresh sub-agents that saw only the property text and a scratch worktree (nothing from /verif). "
              "Each kept change was confirmed by me (`tools/seedconfirm.sh`): applies, builds, the existing tests still pass, the author's demonstration "
-             "fails with the change and passes without it. `tools/seedeval.py` then ran every registered check against a scratch copy with the patch applied.\n\n")
+             "fails with the change and passes without it. `tools/seedeval.py` then ran every registered check against a scratch copy with the patch applied.\n\n" % ((" (round %s)" % prefix.strip("r_")) if prefix else ""))
     fh.write("| seed | kept | detected | by which checks / rules | note |\n|---|---|---|---|---|\n")
     for P, X, st, summ, info in rows:
-        key = "%s_%s" % (P, X)
+        key = "%s%s_%s" % (prefix, P, X)
         by = "; ".join("%s: %s" % (k, ", ".join(v)) for k, v in (info or {}).items()) if info else ""
         fh.write("| %s/%s | %s | %s | %s | %s |\n" % (P, X, "yes" if summ and "CONFIRMED" in summ else "no (%s)" % (summ or "")[:80],
                                                    st if info is not None else "-", by, notes.get(key, {}).get("note", "")))
